@@ -20,7 +20,9 @@ fn main() {
         eprintln!("usage: verif-harness <component> <in.json> <out.json>");
         std::process::exit(2);
     }
-    std::panic::set_hook(Box::new(|_| {}));
+    if std::env::var("VERIF_HARNESS_TRACE").is_err() {
+        std::panic::set_hook(Box::new(|_| {}));
+    }
     let comp = args[1].as_str();
     let input: Value = serde_json::from_str(&fs::read_to_string(&args[2]).expect("read input"))
         .expect("parse input");
